@@ -381,7 +381,7 @@ func (e *c02Env) runScript(sc c02Script, rep int) (string, map[string]interface{
 }
 
 func c02(r *ev.Run) {
-	r.Rule("forced orderings: {pause point holding the request} x {backend connection reset / closed, host removed, hosts replaced, client closes} x {simple request, MGET child, ASK-redirected request}, each repeated (a losing outcome may be a coin flip); full-queue script (node stops reading until > 1024 requests are outstanding, then dies); redirections between two backends whose queues are full (a cycle, and a host removal while a redirection into a silent full backend is pending); the service stopped under pipelined (and redirected) traffic; a ready reply followed by a request whose backend takes 3 s; random fault stress with probabilistic delays at the pause points; distinct = distinct (hook, fault, class) scripts that reached their pause point + stress fault kinds")
+	r.Rule("forced orderings: {pause point holding the request} x {backend connection reset / closed, host removed, hosts replaced, client closes} x {simple request, MGET child, ASK-redirected request}, each repeated (a losing outcome may be a coin flip); full-queue script (node stops reading until > 1024 requests are outstanding, then dies); redirections between two backends whose queues are full (a cycle, and a host removal while a redirection into a silent full backend is pending); the service stopped under pipelined (and redirected) traffic; a ready reply followed by a request whose backend takes 5 s; random fault stress with probabilistic delays at the pause points; distinct = distinct (hook, fault, class) scripts that reached their pause point + stress fault kinds")
 	r.Assume("bounded-progress restatement of 'eventually': a request is lost if it is unanswered 3 s after the fault ended AND fresh canary requests through the same backends succeed AND two goroutine dumps 300 ms apart both show a session writer in rawRequest.Wait; anything else is inconclusive")
 	r.Assume("pause points are placed between critical sections / at channel operations only (utils/vhook), so every forced ordering is one the scheduler could produce")
 	switch os.Getenv("VERIF_C02_ONLY") { // debugging aid: the volume requirements then report the run inconclusive
@@ -1295,7 +1295,7 @@ func c02StopUnderTraffic(r *ev.Run) {
 }
 
 // c02ReplyWithheld: replies are written in request order, but a reply that is ready must not wait in the proxy's write buffer for the
-// NEXT request to be answered: with a pipeline [GET on a fast node, GET on a node that takes 3 s], the first reply has to arrive
+// NEXT request to be answered: with a pipeline [GET on a fast node, GET on a node that takes 5 s], the first reply has to arrive
 // while the second is still outstanding (it would wait for ever if the second backend never answered).
 func c02ReplyWithheld(r *ev.Run) {
 	s, err := startSUT(r, false, 600000, 20)
@@ -1313,7 +1313,7 @@ func c02ReplyWithheld(r *ev.Run) {
 	cl.AssignContiguous()
 	cl.LogArgs = false
 	fast, slow := cl.Nodes[0], cl.Nodes[1]
-	const hold = 3 * time.Second
+	const hold = 5 * time.Second
 	slow.Delay = func(args [][]byte) time.Duration {
 		if len(args) > 1 && strings.HasPrefix(string(args[1]), "held") {
 			return hold
@@ -1325,9 +1325,9 @@ func c02ReplyWithheld(r *ev.Run) {
 		r.Internal("service did not start: %v", err)
 		return
 	}
-	reps := 3
+	reps := 2
 	if r.Tier == "thorough" {
-		reps = 10
+		reps = 8
 	}
 	for rep := 0; rep < reps; rep++ {
 		conn, err := svc.Dial()
@@ -1361,7 +1361,7 @@ func c02ReplyWithheld(r *ev.Run) {
 		switch {
 		case got < nfast:
 			r.Violation("C02:lost:reply-behind-slow-request", "a reply that was ready never arrived", w)
-		case firstAt > hold-500*time.Millisecond:
+		case firstAt > hold-time.Second: // (a starved machine delays everything, but not a local round trip by 4 s)
 			r.Violation("C02:reply-withheld-behind-unanswered-request", fmt.Sprintf("the reply of a request answered at once by its backend reached the client only after %s, together with the reply of the next request (whose backend took %s): it sat in the proxy's write buffer", firstAt.Round(time.Millisecond), hold), w)
 		default:
 			r.Count("ready_replies_delivered_before_the_slow_one", 1)
